@@ -29,7 +29,8 @@ RULE = ("generated grammar trees: 1-6 files in directories {., sub, sub/deep, ot
         "without back-references), 1-3 pool rules per file (each optionally containing another pool rule), a user rule per "
         "file, optional qualified references; the root model exercises every user rule visible from the root. non-trivial: a "
         "rule name is defined in >=2 files reachable from one importer, or the import graph has a diamond; distinct by "
-        "canonical JSON")
+        "canonical JSON"
+        " also: alias rules (plain / qualified, possibly shadowed targets), one attribute assigned from the root's rule and the same-named rule of an import, per-file Comment rules")
 ASSUMPTIONS = [
     "imports of an import are not visible (grammar.md: 'first searched in the current file and then in the imported files')",
     "import cycles are generated without back-references (a file of the cycle never uses a rule of its importer)",
